@@ -14,9 +14,9 @@ DetailedPlacement DetailedPlacement::fromIspdCircuit(const Circuit &circuit) {
   for (int c = 0; c < circuit.nbCells(); ++c) {
     widths.push_back(circuit.placedWidth(c));
     if (circuit.cellIsFixed_[c]) {
+      // Fixed obstructions are already removed from the rows by computeRows
       widths[c] = -1;
-    }
-    if (circuit.placedHeight(c) != rowHeight) {
+    } else if (circuit.placedHeight(c) != rowHeight) {
       widths[c] = -1;
       Rectangle pl = circuit.placement(c);
       obstacles.push_back(pl);
